@@ -36,8 +36,22 @@ META = {
 
 @st.composite
 def cases(draw):
+    fragile = draw(st.integers(0, 4)) == 0
+    if fragile:
+        # a custom serializer that cannot read back what it wrote (from invocation k on, k=0: never could): whatever
+        # the SDK makes of the failure, the stream it sends stays valid. No try/except here: catching the error and
+        # running other operations in the handler would make the program itself non-deterministic.
+        import copy
+
+        from .c01 import _mark_fragile
+
+        prog = copy.deepcopy(draw(G.programs(max_stmts=5, early_completion=True, features=("step", "wait", "child", "parallel", "map", "wfcond", "wfcb", "sleep"))))
+        _mark_fragile(prog["body"], draw)
+    else:
+        prog = draw(G.programs(max_stmts=6, early_completion=True))
     return {
-        "prog": draw(G.programs(max_stmts=6, early_completion=True)),
+        **({"serdes_break": draw(st.sampled_from([0, 0, 1, 2]))} if fragile else {}),
+        "prog": prog,
         "limits": draw(st.sampled_from([{}, {}, {}, {"checkpoint": 300}, {"checkpoint": 120}])),
         "backend": draw(G.backend_cfgs()),
         "plan": {"crashes": draw(G.crash_plans(max_crashes=4, max_inv=6, max_n=14)),
@@ -59,6 +73,8 @@ def nontrivial(run, case):
 
 def classes(run, case):
     out = [f"updates>={n}" for n in (10, 30) if len(run.backend.log) >= n]
+    if case.get("serdes_break") is not None:
+        out.append("custom-serializer-cannot-read-back")
     if any(i.get("outcome") == "crashed" for i in run.invocations):
         out.append("with-crash")
     return out
